@@ -18,7 +18,12 @@ RULE = ("every case drives the REAL ExecutionBuilder: a list of instrument defin
         "(asset index, total, free), trade (instrument index, side, price, quantity, fees). Thorough additionally enumerates every set of <= 3 definitions out of a universe of 10 (two "
         "exchanges x {three spot instruments over three assets, two of them sharing an exchange name, one with an asset-unit spec; one perpetual}) with a mock per exchange and a buy + sell of "
         "every (exchange index, instrument index) pair incl. one out of range (175 cases), and every single tamper op over small ranges on a fixed three-instrument collection (93 cases). "
-        "16 committed corpus cases (corpus/C04M) pin the edge behaviours (A1: name collision: last wins; unsupported kind only on the own exchange; dangling base / unit / re-keyed asset; absent and "
+        "INPUT-DOMAIN FAMILY (`d` cases, max(6, N/6) of them, own seed): the same construction with 1-5 exchanges, histories of 10-30 requests (a foreign instrument only 2 %), and per case one of three magnitude regimes "
+        "chosen so that every product and sum stays within the 28 digits Decimal computes exactly - boundary: fee in {-0.01, -0.25 (rebates), 0, 0.25, 1, 2}, balances in {0, 0.5, -5, 100, 100, 250, 12.25, 1000} (zero, negative, "
+        "fractional, EQUAL on several assets, amounts an order spends EXACTLY: 50 x 2, 40 x 2 x 1.25, 25 x 2 x 2), price in {0, -2, 1, 2, 2.5, 10}, quantity in {-0.5, 0, 1, 25, 40, 50, 100, 125}; tiny: fee / balance / price / "
+        "quantity down to 1e-8 (fee also -1e-8); huge: price 1e12, quantity to 1e11, balances to 1e21. Every request of every case now also runs the time in force through its five values and the strategy id through "
+        "three (by request counter); the order snapshot that comes back must carry them and the cid (assert). "
+        "20 committed corpus cases (corpus/C04M; D1: rebate fee, exact spend to a zero balance, zero / negative balances and prices with fees of 100 % / 200 %, 1e-8 and 1e21 magnitudes) pin the edge behaviours (A1: name collision: last wins; unsupported kind only on the own exchange; dangling base / unit / re-keyed asset; absent and "
         "duplicate exchange; missing balance kills the exchange task; stray balance fails init; two exchanges mock + mock. A2, theorem review: latency 1000 / 2500 / 5000 ms = order executed, engine told `timeout`; 999 ms heard; "
         "a dead exchange answers `offline` at once; definitions violating WFAssets; two links interleaved with a foreign and an out-of-range request). A case is distinct by the SHA-1 of its op lines and non-trivial "
         "when the implementation's observation blocks differ at least once")
@@ -30,7 +35,7 @@ ASSUMPTIONS = [
     "identifiers as in C11 / C04: exchange ids, names, the decimals of an InstrumentSpec are natural numbers (the harness maps them order-preservingly); FnvHashMap built by collect() = "
     "association list with in-place upsert read by lookup (last pair of a key wins), iteration order never observed",
     "the ledger of the mock exchange is the C08 model, imported and reused unchanged (positions: balance = position in config.initial_state.balances, instrument = position in the table); "
-    "exact rational arithmetic, rounding / overflow of Decimal not modelled; initial balances have total = free and pairwise distinct names (the ops are rejected otherwise: the code's map would keep the last one); "
+    "exact rational arithmetic, rounding / overflow of Decimal not modelled (the generator's magnitude regimes keep every product and sum within 28 significant digits; signed fees, prices, quantities and balances, zero included, ARE driven); initial balances have total = free and pairwise distinct names (the ops are rejected otherwise: the code's map would keep the last one); "
     "orders of the initial state are C08C and not part of this model",
     "the ExecutionInstrumentMap, the transmitter table and the engine's routing are the C04 model (imported, `toColl` projects the C11 collection onto it); the collection and its builder are the C11 model",
     "hypotheses of the theorems about builder output: C11 `WFAssets` (within an exchange an asset's internal name determines the asset) ONLY where table entries are compared with definitions "
@@ -40,7 +45,7 @@ ASSUMPTIONS = [
     "code; the specification is silent): an order for the earlier instrument is then executed against the later one's assets and reported under the later one's index",
     "engine-view refinement (`ViewHypW`): additionally the configured balance names are exactly the asset exchange names of the mocked exchange (a missing one makes open_order panic and the task "
     "die - modelled, theorem configured_balances_keep_it_alive, compared; a stray one makes ExecutionBuild::init fail - modelled, compared; the specification is silent in both cases)",
-    "scheduling: an operation is followed by the runtime running to quiescence under a paused clock (3 virtual seconds beyond the largest configured latency), one request in flight at a time; "
+    "scheduling: an operation is followed by the runtime running to quiescence under a paused clock (3 virtual seconds beyond the largest configured latency), one request in flight at a time, OPEN requests only (a cancel request on a mock link - MockExchange::run drops its response sender, cancel_order is unimplemented!() - has no op and no model); "
     "the manager's request timeout on a mock link is the constant 1 s of builder.rs:97 (`mockRequestTimeoutMs`), modelled: with latency_ms >= 1000 the engine is handed the manager's own "
     "OpenFailed(Timeout) under the request's key although the exchange has executed the order and the notifications arrive (theorems timeout_iff, timeout_hides_an_executed_order_witness). AT the threshold "
     "(exactly 1000 ms) both timers expire in the same tick and the outcome is decided by the poll order of the runtime: on the paused current-thread clock of the harness the timeout wins "
